@@ -57,6 +57,15 @@ class Table:
         while z3.is_app(arr) and arr.decl().kind() == z3.Z3_OP_STORE:
             base, idx, val = arr.children()
             if idx.eq(k.t):
+                # `first occurrence wins` values are conditional terms: resolve the condition when the path decides it
+                while z3.is_app(val) and val.decl().kind() == z3.Z3_OP_ITE:
+                    cnd, x, y = val.children()
+                    if _prove(cnd):
+                        val = x
+                    elif _prove(z3.Not(cnd)):
+                        val = y
+                    else:
+                        break
                 return SBool(val) if c == 'compressed' else SInt(val)
             if _prove(idx != k.t):
                 arr = base
@@ -326,6 +335,7 @@ class RowBatch:
         hk = SStr.of(vals['hashkey'])
         cur().key(hk)
         cur().ghost['$newest_key'] = hk          # ghost: the row appended last on this path (case splits of invariants)
+        cur().ghost['$batch_before_append'] = self
         already = self.keys.has(hk)
         from .values import _prove
         fresh_key = _prove(z3.Not(already.t))       # provably a new key: its values are stored as they are
